@@ -550,6 +550,15 @@ func runEngine(c *spendCtx, taproot bool, flags txscript.ScriptFlags, sigCache *
 	if v1.ok != v2.ok || v1.ok != v2b.ok {
 		complaint = fmt.Sprintf("verdict depends on the SigCache: none=%v(%s) cold/warm=%v(%s) warm=%v(%s)", v1.ok, v1.err, v2.ok, v2.err, v2b.ok, v2b.err)
 	}
+	// a script with k signature checks needs k warm runs before an entry wrongly
+	// left in the cache by a failed check can turn the verdict (k <= 3 here)
+	for i := 0; i < 2 && complaint == ""; i++ {
+		vw := runEngineOnce(c, flags, sigCache, true)
+		n++
+		if vw.ok != v1.ok {
+			complaint = fmt.Sprintf("verdict depends on the SigCache: none=%v(%s), warm run %d with the same cache=%v(%s)", v1.ok, v1.err, i+3, vw.ok, vw.err)
+		}
+	}
 	if !taproot {
 		v3 := runEngineOnce(c, flags, nil, false)
 		n++
@@ -834,7 +843,12 @@ func runSigners(r *ev.Run) {
 				} else {
 					atomic.AddInt64(&nUncommitted, 1)
 				}
-				v, complaint := runEngine(mc, it.k.taproot, it.k.vflags(), cache)
+				// every mutation gets a cache of its own, warmed by the signed
+				// transaction only (as evalSignCase does): what one mutation
+				// leaves in the cache cannot influence the next one
+				mcache := txscript.NewSigCache(1000)
+				runEngineOnce(res.ctx, it.k.vflags(), mcache, true)
+				v, complaint := runEngine(mc, it.k.taproot, it.k.vflags(), mcache)
 				if complaint != "" || committed == v.ok {
 					w := evalSignCase(msc)
 					if w == "" {
